@@ -20,7 +20,7 @@ def bounds(tier):
 def cells(tier):
     T = 60 if tier == 'quick' else 600
     out = []
-    N = 3
+    N = 3 if tier == 'quick' else 4
     for op in ALL_TYPES:
         for first in (True, False):
             P = {'op': op, 'N': N, 'first': first}
@@ -52,4 +52,7 @@ def cells(tier):
     for N_ in (1, 2, 3):
         out.append(icell(PID, 'roDelete', N=N_, T=T))
         out.append(icell(PID, 'roDelete', N=N_, T=T, gap=None, trail=0))
+    out.append(icell(PID, 'roDelete', N=2, T=T, free_roid=True))
+    for tw in ('same', 'blank', 'free'):
+        out.append(icell(PID, 'roDelete', N=2, T=T, twice=tw))
     return out
